@@ -1605,7 +1605,7 @@ std::ostream& expression_t::print(std::ostream& os, bool old) const
             get(1).print(os << "{", old) << "} -> {";
             get(2).print(os, old) << "}";
         }
-        get(0).print(os << "(\"", old) << "\")";
+        os << '(' << std::quoted(get(0).get_string_value()) << ')';
         break;
 
     case PO_CONTROL:
